@@ -142,7 +142,9 @@ if __name__ == "__main__":
             if only and not any(name.startswith(o) for o in only):
                 continue
             meta = json.load(open(os.path.join(d, "meta.json")))
-            checks = sorted(c for c, v in (meta.get("detected_by") or {}).items() if v) or [name[:3]]
+            checks = sorted(c for c, v in (meta.get("detected_by") or {}).items() if (v.get("caught") if isinstance(v, dict) else v)) or [name[:3]]
+            if name[:3] in checks:
+                checks = [name[:3]]   # the own check first where it catches the change
             rc, out = sh("git -C %s status --short" % REPO)
             if out.strip():
                 print("ERROR %s not clean" % REPO); sys.exit(2)
